@@ -27,7 +27,8 @@ def one(sid, checks, workers):
             return res
         env = dict(os.environ, PYTHONPATH=wt + "/src", PYTHONWARNINGS="ignore")
         if os.path.exists(os.path.join(d, "demo.py")):
-            dm = sh("/venv/bin/python %s/demo.py" % d, cwd=wt, env=env, timeout=900)
+            shutil.copy(os.path.join(d, "demo.py"), os.path.join(wt, "demo_mx.py"))   # demos locate `src` relative to themselves
+            dm = sh("/venv/bin/python demo_mx.py", cwd=wt, env=env, timeout=900)
             res["demo_fails_on_current_tree"] = dm.returncode != 0
         t = sh("/venv/bin/python -m pytest -q -p no:cacheprovider -x 2>&1 | tail -1", cwd=wt, env=env)
         res["suite"] = t.stdout.strip()[-30:]
@@ -68,6 +69,8 @@ def main():
     def checks_for(sid):
         if a.checks == "all":
             return ALL
+        if a.checks == "none":
+            return []
         if a.checks == "own":
             m = json.load(open(os.path.join(VERIF, "seeded", sid, "meta.json"))) if os.path.exists(os.path.join(VERIF, "seeded", sid, "meta.json")) else {}
             own = m.get("property") or sid.split("-")[0]
